@@ -30,13 +30,33 @@ def gen(rng, tier):
     for k in range(n):
         yield coregen.gen_history(rng, rng.choice([30, 60, 120, 200]), style='scope')
 
+def gen_seq(rng, tier):
+    """scope histories for the interleaved model Core/ScopeRace run one call at a time: 1-4 threads, nested scopes closed
+    innermost first, emissions everywhere, a global default set (or not) before the first scope"""
+    n = 150 if tier == 'quick' else 3000
+    A = 'a' * coregen.NCS; O = '1' * coregen.NCS
+    for _ in range(n):
+        ops = ['static=5'] + ['nc %d %s %s -' % (c, A, O) for c in (1, 2, 3, 4)]
+        nth = rng.choice([1, 2, 3, 4])
+        ops += ['ts'] * (nth - 1)
+        if rng.random() < 0.5: ops.append('sg 0 %d' % rng.randrange(1, 5))
+        depth = [0] * nth
+        for _ in range(rng.choice([10, 25, 50])):
+            t = rng.randrange(nth); r = rng.random()
+            if r < 0.3: ops.append('sd %d %d' % (t, rng.randrange(1, 5))); depth[t] += 1
+            elif r < 0.5 and depth[t]: ops.append('pd %d' % t); depth[t] -= 1
+            elif r < 0.53: ops.append('sg %d %d' % (t, rng.randrange(1, 5)))
+            elif r < 0.6: ops.append('wc %d %d %d' % (t, rng.randrange(1, 5), rng.randrange(coregen.NCS)))
+            else: ops.append('%s %d %d' % (rng.choice(['em', 'sp']), t, rng.randrange(coregen.NCS)))
+        yield ' ; '.join(ops)
+
 def nontrivial(case, out):
     s = coregen.stats(case, out)
     return s['scopes'] >= 2 and s['delivered'] >= 1 and (s['threads'] >= 2 or s['global'] >= 1)
 
 def classify(stream, case, out):
     s = coregen.stats(case, out)
-    return 'threads=%d global=%s unwinds=%s' % (s['threads'], 'y' if s['global'] else 'n', 'y' if '; pp ' in case else 'n')
+    return '%s threads=%d global=%s unwinds=%s' % (stream, s['threads'], 'y' if s['global'] else 'n', 'y' if '; pp ' in case else 'n')
 
 def _match(spec, impl):
     a = spec.split(); b = impl.split()
@@ -44,6 +64,12 @@ def _match(spec, impl):
 
 _st = Stream('hist', 'h_core', gen=gen, per_process=True, nontrivial=nontrivial, spec_mode='spec')
 _st.spec_match = _match
+_st.model_case = coregen.model_case
+_sq = Stream('seqscope', 'h_core', mode='modelrace', gen=gen_seq, per_process=True,
+             nontrivial=lambda case, out: case.count('; sd ') >= 2 and case.count('; ts') >= 1 and 'c' in out)
+_sq.model_case = coregen.model_case
+# collectors and threads are referred to by number: a shrunk history keeps their creation
+for _s in (_st, _sq): _s.shrink_keep = lambda op: op.startswith('nc ') or op == 'ts' or op.startswith('static=')
 
 PROPERTY = {
     'manifest': {
@@ -56,7 +82,7 @@ PROPERTY = {
                 'read yields that collector (installed_is_default), readers never see a half-installed one (reader_never_sees_half_installed); with a load-then-store election two callers both succeed (election_witness). '
                 'Racing callers on real threads are run under enumerated schedules (yield hooks) and judged. The live-scope counter that selects get_default\'s fast path: a transition system over its atomic operations, '
                 'parametrised by whether an open is ONE fetch_add (scope_counter_code_facts, extracted from dispatch.rs), any threads, every schedule: counter = scopes live (scope_counter_exact), so the fast path is taken only with none live (fast_path_sound); '
-                'with load-then-store an open is lost (scope_counter_witness). Real threads released together open, use and close scopes (h_stress), every emission must reach its own scope.',
+                'with load-then-store an open is lost (scope_counter_witness). Scopes and counter together (Core/ScopeRace: every thread a program of set_default / guard drop / get_default calls, each call its atomic steps, any interleaving): a thread between calls is always handed its OWN innermost live scope, else the global default (scoped_default_interleaved), steps of other threads touch nothing of it (other_threads_untouched), and with a non-atomic bump a thread inside its scope is handed the global default (scoped_default_witness); the same model, run one call at a time, is compared with the real dispatch.rs (stream seqscope). Real threads released together open, use and close scopes (h_stress), every emission must reach its own scope.',
         'note': 'Trusted: Lean kernel; axioms propext/Classical.choice/Quot.sound; the history model is sequential (set_global_default\'s steps taken together); the interleaved model covers set_global_default / get_global only, at sequential consistency; '
                 'nested get_default inside collector callbacks (can_enter=false) outside the quantifier; the model is of the code AFTER the fix: commit for F1.',
         'technique': 'Lean 4 proof (simulation relation + induction over histories) of a hand-written model, correspondence-checked against the real crate',
@@ -68,8 +94,9 @@ PROPERTY = {
     'units': ['GlobalInit', 'AtomicCounts'],
     'required_theorems': ['C02.current_is_innermost', 'C02.lifo_restore', 'C02.frame', 'C02.global_once', 'C02.rel_reachable',
                           'C02.global_code_facts', 'C02.global_once_interleaved', 'C02.installed_is_default', 'C02.reader_never_sees_half_installed', 'C02.election_witness',
-                          'C02.scope_counter_code_facts', 'C02.scope_counter_exact', 'C02.fast_path_sound', 'C02.scope_counter_witness'],
-    'streams': [_st],
+                          'C02.scope_counter_code_facts', 'C02.scope_counter_exact', 'C02.fast_path_sound', 'C02.scope_counter_witness',
+                          'C02.scoped_default_interleaved', 'C02.other_threads_untouched', 'C02.scoped_default_witness'],
+    'streams': [_st, _sq],
     'rule': 'one case = one history run in a fresh process: up to 4 threads, nested set_default scopes closed normally or by a caught panic (unwinding through 1..k guards), '
             'set_global_default attempts at any point, emissions everywhere; corpus includes the F1 witness (scope used before the global default existed, other thread holding a scope); '
             'non-trivial = >=2 scopes, >=1 delivery and (>=2 threads or a global default); distinct = distinct history lines',
